@@ -251,10 +251,20 @@ func (g *lfGen) vec(depth int) string {
 			side := hx.Pick(g.rr, []string{"group_left", "group_right"})
 			lost := hx.Pick(g.rr, []string{g.selectorWith(l + `=""`), "sum without (" + l + ") (" + g.selector() + ")", "max by (" + m + ") (" + g.selector() + ")"})
 			other := g.selector()
-			if side == "group_left" {
-				return fmt.Sprintf("(%s * on(%s) group_left(%s) %s)", lost, m, l, other)
+			incl := l
+			if g.rr.Intn(2) == 0 {
+				// several labels copied in, the lost one not first (seeded change C04-remove-from-slice-stops-early)
+				for _, x := range lfLabels {
+					if x != l && x != m {
+						incl = x + ", " + l
+						break
+					}
+				}
 			}
-			return fmt.Sprintf("(%s * on(%s) group_right(%s) %s)", other, m, l, lost)
+			if side == "group_left" {
+				return fmt.Sprintf("(%s * on(%s) group_left(%s) %s)", lost, m, incl, other)
+			}
+			return fmt.Sprintf("(%s * on(%s) group_right(%s) %s)", other, m, incl, lost)
 		}
 		switch g.rr.Intn(5) {
 		case 0:
